@@ -3435,7 +3435,7 @@ unit(name="SrcMyersSimple", props="properties C09, C10", file="src/pattern_match
      functions=[dict(name="Myers::_step", lean="step_", header="fn _step(&self, state: &mut State<T, T::DistType>, a: u8)",
                      self_fields=[("peq", "[T; 256]"), ("bound", "T")],
                      params=[("state", "&mut State"), ("a", "u8")], ret=None,
-                     theorem="RbV.Thm.GenSrcMyersSimple.step_eq_model"),
+                     theorem="RbV.Thm.GenSrcMyersSimple.step__eq_model"),
                 dict(name="Myers::step", lean="step",
                      header="fn step(&self, state: &mut State<T, T::DistType>, a: u8, _: T::DistType)",
                      self_fields=[("peq", "[T; 256]"), ("bound", "T")],
@@ -3462,7 +3462,7 @@ unit(name="SrcMyersMatches", props="properties C09, C10", file="src/pattern_matc
                      struct_fields={"Matches": [("state", "State"), ("text", "Enumerate<u8>"), ("max_dist", "DistType")]},
                      calls={"myers.initial_state": dict(lean="RbV.Gen.SrcMyersSimple.initialState", extra=["w", "wd"],
                                                         args=["DistType", "DistType"], ret="State")},
-                     theorem="RbV.Thm.GenSrcMyersSimple.new_eq_model"),
+                     theorem="RbV.Thm.GenSrcMyersMatches.new_eq_model"),
                 dict(name="Matches::next", lean="next", header="fn next(&mut self) -> Option<(usize, $DistType)>",
                      within="impl<'a, T, C, I> Iterator for Matches<'a, T, C, I> where T: BitVec, C: Borrow<u8>, I: Iterator<Item = C>,",
                      self_fields=[("myers.peq", "[T; 256]"), ("myers.bound", "T"), ("state.pv", "T"), ("state.mv", "T"),
@@ -3473,7 +3473,7 @@ unit(name="SrcMyersMatches", props="properties C09, C10", file="src/pattern_matc
                                                     args=["&mut State", "u8", "DistType"], ret=None),
                             "self.state.known_dist": dict(lean="RbV.Gen.SrcMyersState.knownDist", extra=["w", "wd"],
                                                           self_args=["state.dist"], args=[], ret="Option<DistType>")},
-                     theorem="RbV.Thm.GenSrcMyersSimple.next_eq_model")])
+                     theorem="RbV.Thm.GenSrcMyersMatches.next_eq_model")])
 
 
 # `long::Myers<T>` (block-based): a block is a `State<T, usize>` (`pv`, `mv`, `dist`), the per-block pattern data a `Peq<T>`
